@@ -1,0 +1,23 @@
+//go:build verif
+
+package gcsemu
+
+import "sync/atomic"
+
+// Instrumentation for external runtime monitors; only compiled with the "verif" build tag.
+
+var verifHandler atomic.Value // of func(point, key string)
+
+// VerifSetHandler installs (or, with nil, removes) the callback invoked at every instrumented point.
+func VerifSetHandler(h func(point, key string)) {
+	if h == nil {
+		h = func(string, string) {}
+	}
+	verifHandler.Store(h)
+}
+
+func verifPoint(point, key string) {
+	if h, _ := verifHandler.Load().(func(string, string)); h != nil {
+		h(point, key)
+	}
+}
